@@ -193,9 +193,14 @@ def run(tier, seed, deadline, get_real_function):
             # the division/modulo step is decided on an abstract product tt (the source's n_ck*(n-k) is replaced by tt)
             tt = I("tt")
             nck2_abs = z3.substitute(nck2, (t, tt))
-            rep.prove([tt == j * c2, tt == (n - 1) * c1, n - 1 >= j, n >= j], z3.And(n2 == n - 1, nck2_abs == c1, cur2 == cur - nck),
-                      "L2c step: the body computes n-1, C(n-2,k-1), cur - n_ck", dict(k=j))
-            rep.prove([], z3.substitute(nck2_abs, (tt, t)) == nck2, "L2c' abstraction of the product is faithful", dict(k=j))
+            if z3.eq(nck2_abs, nck2):
+                # the source does not form the product n_ck*(n-k) literally: nothing to abstract, decide the step as it is written
+                rep.prove(lem + [n >= j], z3.And(n2 == n - 1, nck2 == c1, cur2 == cur - nck),
+                          "L2c step: the body computes n-1, C(n-2,k-1), cur - n_ck", dict(k=j))
+            else:
+                rep.prove([tt == j * c2, tt == (n - 1) * c1, n - 1 >= j, n >= j], z3.And(n2 == n - 1, nck2_abs == c1, cur2 == cur - nck),
+                          "L2c step: the body computes n-1, C(n-2,k-1), cur - n_ck", dict(k=j))
+                rep.prove([], z3.substitute(nck2_abs, (tt, t)) == nck2, "L2c' abstraction of the product is faithful", dict(k=j))
             rep.prove(Inv + wit2 + [test] + lem + [n2 == n - 1, nck2 == c1, cur2 == cur - nck],
                       z3.And(n2 >= j, fj1 * nck2 == _P(n2 - 1, j - 1), fj * (cur2 - base) == _P(n2, j), base <= index, index < cur2),
                       "L2d step: invariant re-established, n strictly smaller", dict(k=j))
